@@ -87,6 +87,14 @@ def eligB (e : Env) (t : Nat) : Bool :=
   let d := e.taskD t
   d.leaf && d.hasAlloc && !d.milestone && decide (d.effort > 0) && d.alloc.length == 1 && d.alt.isEmpty
 
+/-- decidable form of `TeamElig` (hypotheses of `C03.teamElig_of_alloc`): several different allocated resources with one
+    common positive efficiency, no alternative -/
+def teamEligB (e : Env) (t : Nat) : Bool :=
+  let d := e.taskD t
+  d.leaf && d.hasAlloc && !d.milestone && decide (d.effort > 0) && decide (d.alloc.length > 1) && d.alt.isEmpty &&
+    decide d.alloc.Nodup && d.alloc.all (fun r => (e.resD r).eff == (e.resD (d.alloc.headD 0)).eff) &&
+    decide ((e.resD (d.alloc.headD 0)).eff > 0)
+
 /-- decidable form of `FwdEff` -/
 def fwdEffB (e : Env) (t : Nat) : Bool :=
   let d := e.taskD t
@@ -114,6 +122,18 @@ def runSched (j : Json) : Json :=
     let secs := σ.led.m.toList.foldl (fun (acc : Rat) (ks : Key × Slot) =>
       if ks.1.1 == r then acc + (usageOf ks.2.usage t).getD 0 else acc) 0
     !(secs / 3600 * (e.resD r).eff == (e.taskD t).effort))
+  -- teams: every member sums to the effort and all members hold the same seconds in every slot
+  let teams := (List.range e.tasks.size).filter (fun t => teamEligB e t && (σ.tst t).scheduled)
+  let teamFail := teams.filter (fun t =>
+    let sel := (e.taskD t).alloc
+    let η := (e.resD (sel.headD 0)).eff
+    let entries := σ.led.m.toList
+    let sumOf (r : Nat) : Rat := entries.foldl (fun (acc : Rat) (ks : Key × Slot) =>
+      if ks.1.1 == r then acc + (usageOf ks.2.usage t).getD 0 else acc) 0
+    let slots := (entries.filter (fun ks => sel.contains ks.1.1 && (usageOf ks.2.usage t).isSome)).map (fun ks => ks.1.2)
+    !(sel.all (fun r => sumOf r / 3600 * η == (e.taskD t).effort) &&
+      slots.all (fun i => sel.all (fun r =>
+        usageOf (σ.led.get r i).usage t == usageOf (σ.led.get (sel.headD 0) i).usage t))))
   let fwds := (List.range e.tasks.size).filter (fun t => fwdEffB e t && (σ.tst t).scheduled && (σ.tst t).forward)
   let depPairs := fwds.flatMap (fun t => ((e.taskD t).allDeps.filter (fun dp => (e.taskD dp.target).leaf)).map (fun dp => (t, dp)))
   let depFail := depPairs.filter (fun (td : Nat × Dep) =>
@@ -148,6 +168,7 @@ def runSched (j : Json) : Json :=
                          ("containers", Json.num (JsonNumber.fromNat conts.length)), ("container_fail", Json.num (JsonNumber.fromNat contFail.length)),
                          ("elig", Json.num (JsonNumber.fromNat eligs.length)), ("elig_scheduled", Json.num (JsonNumber.fromNat eligSched.length)),
                          ("effort_exact_fail", Json.num (JsonNumber.fromNat effortFail.length)),
+                         ("teams_scheduled", Json.num (JsonNumber.fromNat teams.length)), ("team_exact_fail", Json.num (JsonNumber.fromNat teamFail.length)),
                          ("fwd_scheduled", Json.num (JsonNumber.fromNat fwds.length)), ("dep_edges", Json.num (JsonNumber.fromNat depPairs.length)),
                          ("dep_fail", Json.num (JsonNumber.fromNat depFail.length))]
   Json.mkObj [("end", Json.num (JsonNumber.fromInt (Elab.abs p e.stop))), ("wf", Json.bool (wfCheck e && treeCheck e)), ("size", Json.num (JsonNumber.fromInt e.size)), ("thm", thm),
